@@ -609,18 +609,19 @@ class Field(mixin.FieldDomain, abstract.PropertiesData):
             if data is not None:
                 _shape = data.shape
 
+        domain_axes = self.constructs.filter_by_type(
+            "domain_axis", todict=True
+        )
+        for axis in axes:
+            if axis not in domain_axes:
+                raise ValueError(
+                    "Can't set field construct data axes: Domain axis "
+                    f"{axis!r} doesn't exist"
+                )
+
         if _shape is not None:
-            domain_axes = self.constructs.filter_by_type(
-                "domain_axis", todict=True
-            )
             axes_shape = []
             for axis in axes:
-                if axis not in domain_axes:
-                    raise ValueError(
-                        "Can't set field construct data axes: Domain axis "
-                        f"{axis!r} doesn't exist"
-                    )
-
                 axes_shape.append(domain_axes[axis].get_size())
 
             if _shape != tuple(axes_shape):
